@@ -66,3 +66,34 @@ func sleepOp(raw json.RawMessage) (interface{}, error) {
 }
 
 func init() { Register("sleep", sleepOp) }
+
+// readfile returns the content of the first file under the data dir whose path ends with suffix and contains the substring.
+func readFileOp(raw json.RawMessage) (interface{}, error) {
+	var a struct {
+		Suffix   string `json:"suffix"`
+		Contains string `json:"contains"`
+	}
+	if err := json.Unmarshal(raw, &a); err != nil {
+		return nil, err
+	}
+	var found string
+	_ = filepath.Walk(DataDir+"data/", func(p string, info os.FileInfo, err error) error {
+		if err != nil || info.IsDir() || found != "" {
+			return nil
+		}
+		if strings.HasSuffix(p, a.Suffix) && strings.Contains(p, a.Contains) {
+			found = p
+		}
+		return nil
+	})
+	if found == "" {
+		return map[string]interface{}{"missing": true}, nil
+	}
+	b, err := os.ReadFile(found)
+	if err != nil {
+		return nil, err
+	}
+	return map[string]interface{}{"content": string(b), "path": found}, nil
+}
+
+func init() { Register("readfile", readFileOp) }
